@@ -53,11 +53,13 @@ func (s *SignedLatency) OnPing(pingReqID uint32) error {
 		return errors.New("ping request not found")
 	}
 
-	s.Iteration--
-	s.PingRequests[pingReqID] = LatencyMetricsData{
-		Start: pingRequest.Start,
-		End:   time.Now(),
+	if !pingRequest.End.IsZero() {
+		return errors.New("ping request already answered")
 	}
+
+	s.Iteration--
+	pingRequest.End = time.Now()
+	s.PingRequests[pingReqID] = pingRequest
 
 	if s.Iteration > 0 {
 		// Send new ping request
@@ -72,7 +74,7 @@ func (s *SignedLatency) OnPing(pingReqID uint32) error {
 	for _, v := range s.PingRequests {
 		latency := float32(v.End.Sub(v.Start).Microseconds())
 		latencies = append(latencies, latency)
-		if latency < min || min == 0 {
+		if latency < min || len(latencies) == 1 {
 			min = latency
 		}
 		if latency > max {
@@ -81,7 +83,7 @@ func (s *SignedLatency) OnPing(pingReqID uint32) error {
 		mean += latency
 	}
 	mean = float32(math.Round(float64(mean) / float64(len(s.PingRequests))))
-	last = latencies[len(latencies)-1]
+	last = float32(pingRequest.End.Sub(pingRequest.Start).Microseconds())
 
 	sort.Slice(latencies, func(i, j int) bool {
 		return latencies[i] < latencies[j]
